@@ -21,6 +21,19 @@ HARNESS = "gen"
 SHRINK = True
 
 
+def pre():
+    """regenerate coq/gen/RtStructs_Src.v (the struct declarations of cglue/src as they are now) before the theorems are checked"""
+    import sys
+    sys.path.insert(0, os.path.join(vlib.VERIF, "translators"))
+    import rtstructs
+    from srcdump import TranslateError
+    try:
+        rtstructs.generate()
+        return []
+    except TranslateError as e:
+        return ["translator cannot express the current source: %s" % e]
+
+
 def build_harness(tier):
     return G.build(tier)
 
@@ -52,8 +65,11 @@ def known_match(kf, l, fails):
 def gen_cases(rng, tier):
     a, d1 = G.ir_cases(rng, "quick")
     b, d2 = G.grp_cases(rng, tier)
+    # compiled objects read as raw words through the published layout {vtbl, container {instance, context, ret_tmp}} (layout_probe in harness/prog)
+    c = G.shapes_cases(rng.fork("obj"), "quick")[0][:9]
     d1.update(d2)
-    return a + b, d1
+    d1["object_layout_probes"] = len(c)
+    return a + b + c, d1
 
 
 def _names(l):
